@@ -78,6 +78,14 @@ pub struct RunCtx {
     pub oom_seen: bool,
     pub peak_inner: usize,
     pub peak_terms: usize,
+    /// other threads operate on the same manager right now (engine E2): no whole-manager
+    /// audits, results are judged through a walk of the returned handle only
+    pub concurrent: bool,
+    /// E2: another thread may reorder concurrently: nothing order-dependent is judged
+    pub order_unstable: bool,
+    /// called before every whole-manager audit (E2: wait until the collector thread and
+    /// the workers are idle, so that the audit sees a quiescent manager)
+    pub pre_audit: Option<fn()>,
 }
 
 impl RunCtx {
@@ -97,6 +105,9 @@ impl RunCtx {
             oom_seen: false,
             peak_inner: 0,
             peak_terms: 0,
+            concurrent: false,
+            order_unstable: false,
+            pre_audit: None,
         }
     }
     pub fn violate(&mut self, props: &[&str], class: &str, detail: String) {
@@ -136,6 +147,15 @@ pub trait Machine {
     /// added, terminals alive after the collection, terminals added, success); None if
     /// the instruction is not applicable (operands missing)
     fn retry(&mut self, ins: &Instr, model: &mut Model, ctx: &mut RunCtx) -> Option<RetryInfo>;
+    /// E2: a second register file on the same manager for another simulated thread
+    fn attach_boxed(&self) -> Box<dyn Machine + Send>;
+    /// E2: hand all live registers (with their model denotations) over as opaque handles
+    fn export_live(&mut self, model: &mut Model) -> Box<dyn std::any::Any + Send>;
+    /// E2: keep handles exported by another thread's machine alive and include them in
+    /// the audits (denotation, canonicity across threads, reference counts)
+    fn import_foreign(&mut self, handles: Box<dyn std::any::Any + Send>);
+    /// drop the foreign handles again
+    fn clear_foreign(&mut self);
 }
 
 #[derive(Clone, Copy, Debug, Serialize, Deserialize)]
